@@ -338,6 +338,10 @@ class Background2D:
                 raise ValueError(f'{name} must be a 2D array.')
             if shape and array.shape != self._data.shape:
                 raise ValueError(f'data and {name} must have the same shape.')
+            if name in ('mask', 'coverage_mask') and array.dtype != bool:
+                # a non-boolean (e.g., 0/1 integer) mask must not be
+                # used as an index array
+                array = array.astype(bool)
         return array
 
     def _apply_units(self, data):
